@@ -1101,9 +1101,12 @@ class Machine:
             return "either", None, rel
         if rel.startswith("different"):
             return "refuse", None, rel.split(":")[1]
-        if self._maps_differ(a.m, b.m):
-            return "untracked", None, "shift-history"
         m = self._union_model(a.m, b.m)
+        if self._maps_differ(a.m, b.m):
+            # accepted, but no single original exists any more; the library folds on with the attributes of a, so the
+            # members that follow can still be refused (other dimension, other scaling): the fold continues on a stand-in
+            return "untracked", _Operand(m, _Proxy(m.cur.shape[1] if m.n else 0, a.obj.get_scaling_range(), a.obj.get_scaling_factor()),
+                                         None, borderline=True), "shift-history"
         return "result", _Operand(m, _Proxy(m.cur.shape[1] if m.n else 0, a.obj.get_scaling_range(), a.obj.get_scaling_factor()),
                                   None, borderline=(rel == "borderline") or a.borderline or b.borderline), ""
 
@@ -1147,12 +1150,16 @@ class Machine:
         if len(set(id(v.obj) for v in members)) < len(members):
             self.out.cls("list_concatenate:same-object-twice")
         # the fold on model level
-        acc, kind, what = members[0], "result", ""
+        acc, kind, what, untracked = members[0], "result", "", ""
         for v in members[1:]:
             kind, nxt, what = self._fold_step(acc, v)
+            if kind == "untracked":
+                kind, untracked = "result", what
             if kind != "result":
                 break
             acc = nxt
+        if kind == "result" and untracked:
+            kind, what = "untracked", untracked
         for e, sn in zip(entries, snaps):
             self.check_unmodified(e, sn, "list_concatenate", "member of list_concatenate")
         rows = [v.m for v in members if v.m.n]
